@@ -66,6 +66,10 @@ def install(I):
         if len(a) > 1 and a[1] is not None:
             if isinstance(x, (int, float)) and isinstance(a[1], int):
                 return round(x, a[1])
+            if a[1] == 0 and isinstance(a[1], int) and isinstance(x, SymVal) and x.k in ops.NUMK:
+                # round(x, 0) keeps the type of x: a float stays a float (with an integral value)
+                r = ops.py_round(x)
+                return ops.py_float(r) if x.k == 'real' else r
             raise _interp_mod().Unsupported('round with ndigits on symbolic value')
         if isinstance(x, (int, float)) and not isinstance(x, bool):
             try:
@@ -887,6 +891,28 @@ def format_symbolic(I, fmt, a, k):
             return CharStr([z3.simplify(48 + n / 10), z3.simplify(48 + n % 10)])
         raise _interp_mod().Unsupported("'{:02d}'.format outside 0..99")
     from .values import Struct
+    # integer presentation types reject floats (and 'f'/'e'/'g' reject strings): the one part of str.format that is decided
+    # by the KIND of an argument, so it is modelled; the text produced stays uninterpreted
+    try:
+        import string as _string
+        auto = 0
+        for _lit, fname, spec, _conv in _string.Formatter().parse(fmt):
+            if fname is None:
+                continue
+            base = fname.split('.')[0].split('[')[0]
+            if base == '':
+                arg = a[auto] if auto < len(a) else None
+                auto += 1
+            elif base.isdecimal():
+                arg = a[int(base)] if int(base) < len(a) else None
+            else:
+                arg = k.get(base)
+            if spec and spec[-1] in 'dxXobc' and (kind_of(arg) == 'real'):
+                I.raise_builtin('ValueError', "Unknown format code '%s' for object of type 'float'" % spec[-1])
+            if spec and spec[-1] in 'dxXobcfFeEgG%' and kind_of(arg) == 'str' and not isinstance(arg, Struct):
+                I.raise_builtin('ValueError', "Unknown format code '%s' for object of type 'str'" % spec[-1])
+    except (ValueError, IndexError):
+        pass
     # str.format is the specification itself: an uninterpreted, deterministic function of its arguments
     return Struct('str.format', (fmt, tuple(a), tuple(sorted(k.items(), key=lambda kv: kv[0]))))
 
@@ -943,7 +969,7 @@ def install_modules(I):
         return Builtin('logging.' + level, f)
     module('logging', debug=logfn('debug'), info=logfn('info'), warning=logfn('warning'),
            error=logfn('error'), critical=logfn('critical'), exception=logfn('error'),
-           basicConfig=Builtin('basicConfig', lambda I_, a, k: None),
+           basicConfig=Builtin('basicConfig', lambda I_, a, k: I_.ghost.setdefault('logging_config', PyList()).items.append(PyDict(dict(k)))),
            DEBUG=10, INFO=20, WARNING=30, ERROR=40,
            getLogger=Builtin('getLogger', lambda I_, a, k: Opaque('logger', {
                lv: (lambda I2, o, a2, k2, lv=lv: I2.log.append((lv, tuple(a2)))) for lv in
